@@ -495,3 +495,123 @@ func ruleR07d(c *Ctx) {
 	c.check(any && okAll, "R07d", "template.Registry.Add#one-declaration-mechanism", fd.Pos(),
 		"the soydoc/header-param exclusivity test precedes recording the template", "a template declaring params both in soydoc and in headers is recorded without the exclusivity test")
 }
+
+// binderScopes: for each binder node kind, which of its children are evaluated outside the new
+// variable's scope before it is bound, inside it, and outside after it ends (the language's scoping).
+var binderScopes = map[string]struct{ before, inside, after []string }{
+	"LetValueNode":   {before: []string{"Expr"}},
+	"LetContentNode": {before: []string{"Body"}},
+	"ForNode":        {before: []string{"List"}, inside: []string{"Body"}, after: []string{"IfEmpty"}},
+}
+
+// R07e: the checker brings a binder into scope exactly where the language does.
+func ruleR07e(c *Ctx) {
+	ck := c.mustFunc("parsepasses", "templateChecker.checkTemplate")
+	p := c.pkg("parsepasses")
+	if ck == nil || p == nil {
+		return
+	}
+	info := p.TypesInfo
+	var sw *ast.TypeSwitchStmt
+	ast.Inspect(ck.Body, func(x ast.Node) bool {
+		if ts, ok := x.(*ast.TypeSwitchStmt); ok && sw == nil {
+			sw = ts
+		}
+		return true
+	})
+	if sw == nil {
+		c.fatalf("anchor: type switch of checkTemplate not found")
+		return
+	}
+	n := 0
+	for _, cs := range sw.Body.List {
+		cc := cs.(*ast.CaseClause)
+		if len(cc.List) != 1 {
+			continue
+		}
+		tv, ok := info.Types[cc.List[0]]
+		if !ok {
+			continue
+		}
+		_, tn, ok := relPkgOfType(tv.Type)
+		spec, isBinder := binderScopes[tn]
+		if !ok || !isBinder {
+			continue
+		}
+		n++
+		key := "parsepasses.checkTemplate binder-scope " + tn
+		// statement indices
+		appendAt, truncAt := -1, -1
+		visitAt := map[string]int{}
+		returns := false
+		for i, s := range cc.Body {
+			if _, ok := s.(*ast.ReturnStmt); ok {
+				returns = true
+			}
+			if as, ok := s.(*ast.AssignStmt); ok && len(as.Rhs) == 1 {
+				switch r := ast.Unparen(as.Rhs[0]).(type) {
+				case *ast.CallExpr:
+					if id, ok := r.Fun.(*ast.Ident); ok && id.Name == "append" && appendAt < 0 {
+						appendAt = i
+					}
+				case *ast.SliceExpr:
+					if truncAt < 0 {
+						truncAt = i
+					}
+				}
+			}
+			ast.Inspect(s, func(x ast.Node) bool {
+				call, ok := x.(*ast.CallExpr)
+				if !ok {
+					return true
+				}
+				if id, ok := call.Fun.(*ast.Ident); ok && id.Name == "append" {
+					return true
+				}
+				for _, a := range call.Args {
+					if se, ok := ast.Unparen(a).(*ast.SelectorExpr); ok {
+						if fv := fieldOfExpr(se, info); fv != nil {
+							if _, seen := visitAt[fv.Name()]; !seen {
+								visitAt[fv.Name()] = i
+							}
+						}
+					}
+				}
+				return true
+			})
+		}
+		var problems []string
+		if appendAt < 0 {
+			problems = append(problems, "the variable is never recorded as bound")
+		}
+		if !returns {
+			problems = append(problems, "the case falls through to the generic traversal, which visits every child with the variable already in scope")
+		}
+		for _, f := range spec.before {
+			if v, ok := visitAt[f]; !ok || v > appendAt {
+				problems = append(problems, f+" is not checked before the variable is bound: a reference to the variable inside its own "+f+" is accepted")
+			}
+		}
+		for _, f := range spec.inside {
+			if v, ok := visitAt[f]; !ok || v < appendAt || (truncAt >= 0 && v > truncAt) {
+				problems = append(problems, f+" is not checked while the variable is in scope")
+			}
+		}
+		if len(spec.inside) > 0 && truncAt < 0 {
+			problems = append(problems, "the variable is not removed when its body ends: references after the loop are accepted and then fail at render time")
+		}
+		for _, f := range spec.after {
+			if v, ok := visitAt[f]; ok && truncAt >= 0 && v < truncAt {
+				problems = append(problems, f+" is checked with the variable still in scope")
+			} else if !ok {
+				problems = append(problems, f+" is not checked")
+			}
+		}
+		if len(problems) > 0 {
+			c.bad("R07e", key, cc.Pos(), strings.Join(problems, "; "))
+		} else {
+			c.ok("R07e", key, cc.Pos(), "children are checked before / inside / after the variable's scope as the language defines it")
+		}
+	}
+	c.floor("R07e", "binder kinds in the checker", 3, n)
+}
